@@ -302,3 +302,101 @@ def perturb_map(draw, map_plain, input_plain, t):
             new_rows.append(r)
         clean.append([n, new_rows])
     return clean, ops
+
+
+# --------------------------------------------------------------------------
+# FASTA files (C03, C04, C13, C14, C15, C17)
+#
+# plain: {"records": [[name, description, residues, width, eol]], "final_newline": bool}
+# eol is "\n" or "\r\n"; description is "" or text placed after a separator (" " or "\t" as first char)
+
+ACGT = "ACGTacgt"
+IUPAC_OTHER = "RYMKSWHBVDrymkswhbvd"
+ODD = "*-.xXuU"
+WIDTHS = [1, 2, 3, 5, 7, 10, 11, 60, 61, 80]
+
+
+@st.composite
+def residue_string(draw, n, acgt_only=False):
+    if n == 0:
+        return ""
+    pattern = draw(st.text(alphabet=ACGT, min_size=4, max_size=12))
+    style = 0 if acgt_only else draw(st.integers(0, 4))
+    if style == 0:
+        reps = n // len(pattern) + 1
+        return (pattern * reps)[:n]
+    out = []
+    total = 0
+    k = 0
+    while total < n:
+        kind = draw(st.sampled_from(["acgt", "acgt", "N", "n", "iupac", "odd", "mixN"]))
+        run = min(n - total, draw(st.sampled_from([1, 1, 2, 3, 5, 10, 60, 61, 200])))
+        if kind == "acgt":
+            off = (k * 7) % len(pattern)
+            seg = ((pattern * (run // len(pattern) + 2))[off : off + run])
+        elif kind == "N":
+            seg = "N" * run
+        elif kind == "n":
+            seg = "n" * run
+        elif kind == "iupac":
+            seg = (IUPAC_OTHER * (run // len(IUPAC_OTHER) + 1))[:run]
+        elif kind == "odd":
+            seg = (ODD * (run // len(ODD) + 1))[:run]
+        else:
+            seg = ("Nn" * run)[:run]
+        out.append(seg)
+        total += run
+        k += 1
+    return "".join(out)
+
+
+FASTA_NAME_ALPHABET = "abcdefgXYZ0123456789_-.:|#+=@/é"
+
+
+@st.composite
+def fasta_record(draw, idx, acgt_only=False, max_lines=12, min_len=0):
+    width = draw(st.sampled_from(WIDTHS))
+    cls = draw(st.integers(0, 9))
+    if cls == 0:
+        n = min_len  # (nearly) empty record, own class
+    elif cls == 1:
+        n = 1
+    elif cls == 2:
+        n = max(1, width - 1)
+    elif cls == 3:
+        n = width
+    elif cls == 4:
+        n = width + 1
+    elif cls == 5:
+        n = width * draw(st.integers(1, max_lines))
+    else:
+        n = draw(st.integers(1, width * max_lines))
+    n = max(n, min_len)
+    seq = draw(residue_string(n, acgt_only=acgt_only))
+    base = draw(st.text(alphabet=FASTA_NAME_ALPHABET, min_size=1, max_size=8))
+    name = f"{base}{idx}"  # unique by construction
+    desc = draw(st.sampled_from(["", "", " len=5 desc", "\tx y", "  two spaces"]))
+    eol = draw(st.sampled_from(["\n", "\n", "\r\n"]))
+    return [name, desc, seq, width, eol]
+
+
+@st.composite
+def fasta_file(draw, max_records=6, acgt_only=False, max_lines=12, min_len=0, final_newline=None):
+    n = draw(st.integers(1, max_records))
+    records = [draw(fasta_record(i + 1, acgt_only=acgt_only, max_lines=max_lines, min_len=min_len)) for i in range(n)]
+    fn = draw(st.sampled_from([True, True, False])) if final_newline is None else final_newline
+    return {"records": records, "final_newline": fn}
+
+
+def fasta_bytes(plain) -> bytes:
+    out = []
+    for name, desc, seq, width, eol in plain["records"]:
+        out.append(f">{name}{desc}{eol}".encode())
+        for i in range(0, len(seq), width):
+            out.append(seq[i : i + width].encode("latin-1") + eol.encode())
+    data = b"".join(out)
+    if not plain["final_newline"]:
+        last_eol = plain["records"][-1][4].encode()
+        if data.endswith(last_eol):
+            data = data[: -len(last_eol)]
+    return data
